@@ -678,5 +678,41 @@ pub fn run(ctx: &mut Ctx) {
             }
         }
     }
+    // the parallel path: connections concurrently live on ONE worker of a real pool whose configured capacity
+    // is exactly what they need, against each connection analysed alone
+    let rounds = ctx.n(12, 150);
+    for _ in 0..rounds {
+        use crate::registry::c10::{conns_for, group, round_robin, run_pool, sequential, worker_of, Kind};
+        for kind in [Kind::Http, Kind::Tls] {
+            let n = *r.pick(&[2usize, 3, 4]);
+            let mut same: Vec<Conn> = vec![];
+            let mut guard = 0;
+            while same.len() < 5 && guard < 400 {
+                guard += 1;
+                for c in conns_for(kind, &mut r) {
+                    let f0 = net::eth_bytes(&c.segs[0]);
+                    let dup = same.iter().any(|x| (x.client == c.client && x.server == c.server) || (x.client == c.server && x.server == c.client));
+                    if !dup && worker_of(kind, &f0, n) == Some(0) && same.len() < 5 {
+                        same.push(c);
+                    }
+                }
+            }
+            if same.len() < 3 {
+                continue;
+            }
+            let frames: Vec<Vec<u8>> = round_robin(&same).iter().map(|&(c, i)| net::eth_bytes(&same[c].segs[i])).collect();
+            let mut iso = vec![];
+            for c in &same {
+                let fr: Vec<Vec<u8>> = c.segs.iter().map(net::eth_bytes).collect();
+                iso.extend(sequential(kind, &fr, same.len()));
+            }
+            let run = run_pool(kind, n, frames.len() + 64, 8, 2, same.len(), vec![frames], &mut r);
+            let mut l = Line::op("C07.pool");
+            l.tok(&format!("{kind:?}")).usize(n).usize(same.len());
+            l.text(&group(&iso));
+            let out = if run.timed_out { "TIMEOUT".to_string() } else { group(&run.results) };
+            ctx.emit(l.finish(&out));
+        }
+    }
     set_clock(u64::MAX);
 }
